@@ -203,27 +203,29 @@ Section SpecExec.
          | _ => SFUndefined
          end.
 
-  (** ExecuteSelectionSet *)
+  (** ExecuteSelectionSet: one entry per group whose field is defined, in group order *)
+  Definition s_entry (children : name -> scompleter) (ot : name) (path : rpath)
+             (kf : name * list fnode) : list (name * sout) :=
+    let key := fst kf in
+    match snd kf with
+    | [] => []
+    | f :: _ =>
+        match s_field_kind ot (fn_name f) with
+        | SFTypename => [(key, s_ok (JStr ot))]
+        | SFMeta => [(key, s_ok JMeta)]
+        | SFUndefined => []                          (* "if fieldType is null: continue" *)
+        | SFType t =>
+            let p := path ++ [PKey key] in
+            [(key, s_position t p (children (fn_name f) t (snd kf) p))]
+        end
+    end.
+
   Definition s_selection_set (children : name -> scompleter) (ot : name) (sels : list selection)
              (path : rpath) : sout :=
     match s_collect S D E fuel ot sels with
     | None => {| so_val := None; so_thrown := []; so_caught := []; so_nulls := [] |}   (* out of fuel *)
     | Some groups =>
-        let entries :=
-          flat_map (fun kf =>
-                      let key := fst kf in
-                      match snd kf with
-                      | [] => []
-                      | f :: _ =>
-                          match s_field_kind ot (fn_name f) with
-                          | SFTypename => [(key, s_ok (JStr ot))]
-                          | SFMeta => [(key, s_ok JMeta)]
-                          | SFUndefined => []          (* "if fieldType is null: continue" *)
-                          | SFType t =>
-                              let p := path ++ [PKey key] in
-                              [(key, s_position t p (children (fn_name f) t (snd kf) p))]
-                          end
-                      end) groups in
+        let entries := flat_map (s_entry children ot path) groups in
         s_all (map snd entries) (fun vs => JObj (combine (map fst entries) vs))
     end.
 
@@ -345,30 +347,34 @@ Fixpoint sty_base (t : sty) : name :=
 Section DocOk.
   Variables (S : schema) (D : document) (E : env) (fuel : nat).
 
+  (** a field of type [t] selected by [fields]: [t] is an output type, and if it is composite the
+      merged sub-selections are fine for every object type its values can have *)
+  Definition type_ok_with (rec : name -> list selection -> bool) (t : sty) (fields : list fnode) : bool :=
+    match lookup_type S (sty_base t) with
+    | Some (NScalar _) | Some (NEnum _) => true
+    | Some (NObject _ _) | Some (NInterface _) | Some (NUnion _) =>
+        forallb (fun ot' => rec ot' (s_merge_selection_sets fields)) (s_possible S (sty_base t))
+    | Some NInput | None => false
+    end.
+
+  Definition group_ok_with (rec : name -> list selection -> bool) (ot : name) (kf : name * list fnode) : bool :=
+    match snd kf with
+    | [] => false
+    | f :: _ =>
+        match s_field_kind S ot (fn_name f) with
+        | SFTypename | SFMeta => true
+        | SFUndefined => false
+        | SFType t => type_ok_with rec t (snd kf)
+        end
+    end.
+
   Fixpoint sels_ok (n : nat) (ot : name) (sels : list selection) {struct n} : bool :=
     match n with
     | O => false
     | Datatypes.S n' =>
         match s_collect S D E fuel ot sels with
         | None => false
-        | Some groups =>
-            forallb (fun kf =>
-                       match snd kf with
-                       | [] => false
-                       | f :: _ =>
-                           match s_field_kind S ot (fn_name f) with
-                           | SFTypename | SFMeta => true
-                           | SFUndefined => false
-                           | SFType t =>
-                               match lookup_type S (sty_base t) with
-                               | Some (NScalar _) | Some (NEnum _) => true
-                               | Some (NObject _ _) | Some (NInterface _) | Some (NUnion _) =>
-                                   forallb (fun ot' => sels_ok n' ot' (s_merge_selection_sets (snd kf)))
-                                           (s_possible S (sty_base t))
-                               | Some NInput | None => false
-                               end
-                           end
-                       end) groups
+        | Some groups => forallb (group_ok_with (sels_ok n') ot) groups
         end
     end.
 
